@@ -312,6 +312,30 @@ FIXED += [
       "result": "v2", "validate": "check"}),
 ]
 
+FIXED += [
+    ("F46-select-unknown-string", "C14", "select() with an unknown column name given as a string",
+     "select('nope') raised AttributeError instead of ColumnNotFoundError",
+     {"tables": [TG], "steps": [S()], "result": "v0", "mode": "reject",
+      "offender": {"kind": "verb", "which": "select_unknown", "expect": "ColumnNotFoundError", "anycol": C("id")}, "validate": "check"}),
+]
+
+OPEN += [
+    ("K06-polars-int64-uint64-arithmetic", ["C12"],
+     "Polars: arithmetic between an Int64 and a UInt64 column is computed in Float64 although the static type is Int",
+     r"dtype\|polars:int->", "uint64_column",
+     {"tables": [src([["id", "int64"], ["k", "int64"], ["a", "uint64"]], [[1, 2, 3]])],
+      "steps": [S(), st("v1", "mutate", "v0", items=[["z", F("mul", C("k"), C("a"))]])], "result": "v1"}),
+]
+
+FIXED += [
+    ("F47-join-suffix-counter", "C06", "numeric join suffix must work for all right columns",
+     "automatic join suffix counter produced a duplicate column name (a_t1_1 twice)",
+     {"tables": [src([["a", "int64"], ["a_t1_1", "int64"], ["b", "int64"], ["b_t1", "int64"]], [[1, 1, 2, 3]]),
+                 src([["a", "int64"], ["b", "int64"], ["z", "int64"]], [[1, 2, 1]], "t1")],
+      "steps": [S(), S("v1", "t1"), {"out": "v2", "verb": "join", "in": "v0", "right": "v1", "how": "inner",
+                                      "on": [F("eq", V("v0", "a"), V("v1", "z"))]}], "result": "v2"}),
+]
+
 
 def main():
     log = subprocess.run(["git", "-C", "/repo", "log", "--format=%h %s"], capture_output=True, text=True).stdout.splitlines()
